@@ -222,6 +222,39 @@ Example derive_vec_len_panics :
 Proof. vm_compute. repeat split. Qed.
 
 (* ------------------------------------------------------------------------------------------ *)
+(** * The rows compared with the regenerated source table (gen/NativesSrc.v) describe the model *)
+
+Lemma recv_src_panics : forall n, is_core_native n = true ->
+    String.eqb (recv_src n) "-" = negb (recv_panics n).
+Proof. intros n H. destruct n; try discriminate H; reflexivity. Qed.
+
+(* a literal arity in the row = the native answers a wrong argument count with a TypeError,
+   whatever the receiver and the arguments are (when the arity check comes first) *)
+Theorem arity_src_checked : forall n, is_core_native n = true ->
+    arity_src n = show_nat (expected_args n) -> arity_first_src n = true ->
+    forall in_fiber recv args, List.length args <> expected_args n ->
+      exists m, run_native in_fiber n recv args = NErr EType m.
+Proof.
+  intros n Hc Ha Hf inf recv args Hl. apply PeanoNat.Nat.eqb_neq in Hl.
+  destruct n; try discriminate Hc; try discriminate Hf; try (vm_compute in Ha; discriminate Ha);
+    cbn [run_native expected_args] in *;
+    unfold string_method, map_key_method, map_method0, check_num_args; rewrite Hl;
+    eexists; reflexivity.
+Qed.
+Print Assumptions arity_src_checked.
+
+(* a validated key: an unhashable key is a ValueError *)
+Lemma key_src_checked : forall n, key_src n = true ->
+    forall in_fiber k rest, has_hash k = false -> List.length (k :: rest) = expected_args n ->
+      run_native in_fiber n AKMap (k :: rest)
+      = NErr EValue "Cannot use unhashable value '{}' as HashMap key.".
+Proof.
+  intros n H inf k rest Hk Hl. destruct n; try discriminate H; cbn [run_native expected_args] in *;
+    unfold map_key_method, check_num_args; rewrite Hl; cbn [Nat.eqb];
+    unfold with_hash_map_key; rewrite Hk; reflexivity.
+Qed.
+
+(* ------------------------------------------------------------------------------------------ *)
 (** * Corollaries of the bytecode verifier *)
 
 (* verified code never reaches a panic / unchecked-memory site of the skeleton machine *)
